@@ -368,6 +368,8 @@ func (x *ctx) runCase(c Case, o *vlib.Oracle) {
 		x.runSchnorrE(c, a, o, useOracle, key)
 	case "ecmneg": // A mag ng   (XYZ.ECmult with na = -mag)
 		x.runEcmNeg(c, a, o, useOracle, key)
+	case "tweakadd": // A t   (XY.ECPublicTweakAdd against A + t·G, incl. sums at infinity)
+		x.runTweakAdd(c, a, o, useOracle, key)
 	case "legacy": // op-name + args: a witness of a repaired defect; the current code must refuse it
 		x.runLegacy(c, o, key)
 	default:
@@ -717,6 +719,7 @@ func main() {
 	add("recov", true, r.N(40, 500), 4)
 	add("schnorre", true, r.N(48, 600), 8)
 	add("ecmneg", true, r.N(48, 600), 8)
+	add("tweakadd", true, r.N(24, 400), 8)
 	// real vs reference only (cheap): the property's own predicate on many more inputs
 	add("ecdsa", false, r.N(2000, 30000), 250)
 	add("schnorr", false, r.N(1200, 20000), 200)
@@ -728,6 +731,7 @@ func main() {
 	add("recov", false, r.N(600, 10000), 100)
 	add("schnorre", false, r.N(600, 20000), 100)
 	add("ecmneg", false, r.N(600, 20000), 100)
+	add("tweakadd", false, r.N(600, 10000), 100)
 	// sweeps (sweep.go): long incremental runs of valid inputs + their minimal invalid sibling, for defects
 	// that need 10^4..10^5 inputs to show (un-normalised field elements read by IsOdd/Equals)
 	add("sweep-tweak", false, r.N(120000, 1500000), 4000)
